@@ -396,7 +396,10 @@ def rule_same_text(ctx, facts, prefix):
     finder, which hands it unmodified to the pest parser."""
     from .c12 import pure_chain_root
     pr = facts.one(edit.PROCESS)
-    if ctx.check(pr is not None, prefix, "anchor|process_references", "process_references async block found", ""):
+    # the fuzzing facade (lib target, thorough tier) contains the parser only: the driver half of the chain is
+    # decided on the bin target
+    has_codegen = any(b.id.startswith("codegen::") for b in facts.bodies)
+    if has_codegen and ctx.check(pr is not None, prefix, "anchor|process_references", "process_references async block found", ""):
         fr = pr.calls_to(r"code_parser::find_references$")
         mp = pr.calls_to(r"ReferenceProcessor(<.*>)?>?::map")
         if ctx.check(len(fr) == 1 and len(mp) == 1, prefix, "anchor|find-map", "find_references and map calls found", pr.where()):
